@@ -25,9 +25,18 @@ type HashV struct {
 	NKey   int // leading chunks that survive Reset (HMAC key)
 	Size   *Term
 	Typ    types.Type
+	Elem   types.Type // element type of input and digest (nil: byte); int8 for the ternary Curl sponge
+	Done   bool       // a sponge that has been squeezed (a second squeeze is not modelled)
 }
 
-var fixedHashSize = map[string]int64{"sha512": 64, "sha256": 32, "ripemd160": 20, "blake2b256": 32, "blake2b160": 20, "sha1": 20, "md5": 16}
+func (h HashV) elem() types.Type {
+	if h.Elem != nil {
+		return h.Elem
+	}
+	return byteT
+}
+
+var fixedHashSize = map[string]int64{"curlp81": 243, "sha512": 64, "sha256": 32, "ripemd160": 20, "blake2b256": 32, "blake2b160": 20, "sha1": 20, "md5": 16}
 
 func (x *Exec) newHash(name string, fn *Term) HashV {
 	h := HashV{Name: name, Fn: fn}
@@ -69,7 +78,7 @@ func (x *Exec) chunkOf(e *Env, v Value) hchunk {
 	}
 	arr := x.memArr(e.st, s.Alloc, s.path)
 	ln := x.simplifyWithPC(e.st, s.Len)
-	if n, ok := ln.Int64(); ok && n <= 136 {
+	if n, ok := ln.Int64(); ok && n <= 256 {
 		var el []*Term
 		for i := int64(0); i < n; i++ {
 			el = append(el, Select(arr.T, Add(s.Off, IntC(i))))
@@ -116,21 +125,33 @@ func (h HashV) symbol() (string, []*Term) {
 	return h.Name + "$" + strings.Join(merged, "_"), args
 }
 
+func (h HashV) sliceType() types.Type {
+	if h.Typ != nil {
+		return h.Typ
+	}
+	return types.NewSlice(h.elem())
+}
+
 // digest returns the digest as a fresh byte slice value.
 func (x *Exec) digest(e *Env, h HashV) SliceV {
 	name, args := h.symbol()
+	byteT := h.elem()
 	es := e.R().sortOf(byteT)
 	a := x.alloc()
 	size := x.simplifyWithPC(e.st, h.Size)
-	if n, ok := size.Int64(); ok && n <= 128 {
+	if n, ok := size.Int64(); ok && n <= 256 {
 		arr := ConstArr(e.zeroElem(byteT))
 		for i := int64(0); i < n; i++ {
 			b := App(name, es, append([]*Term{IntC(i)}, args...)...)
-			e.st.assume(e.R().rangeOf(b, byteT))
+			if h.Elem != nil && es == IntS {
+				e.st.assume(And(Le(IntC(-1), b), Le(b, IntC(1)))) // a trit
+			} else {
+				e.st.assume(e.R().rangeOf(b, byteT))
+			}
 			arr = Store(arr, IntC(i), b)
 		}
 		e.st.mem[a] = ArrayV{T: arr, N: -1, Elem: byteT}
-		return SliceV{Alloc: a, Off: IntC(0), Len: IntC(n), Cap: IntC(n), Elem: byteT, Nil: FalseT, Typ: types.NewSlice(byteT)}
+		return SliceV{Alloc: a, Off: IntC(0), Len: IntC(n), Cap: IntC(n), Elem: byteT, Nil: FalseT, Typ: h.sliceType()}
 	}
 	arr := x.fresh("digest", ArrS(es))
 	k := x.fresh("k", IntS)
@@ -145,6 +166,36 @@ func (x *Exec) digest(e *Env, h HashV) SliceV {
 func (x *Exec) hashMethod(e *Env, recv ast.Expr, h HashV, name string, n *ast.CallExpr) (Value, bool) {
 	noErr := ErrV{Nil: TrueT, Kind: IntC(0), Type: IntC(0), Off: IntC(0)}
 	switch name {
+	case "Absorb":
+		// Curl sponge: Absorb(in) fails exactly when len(in) is 0 or not a multiple of 243, and
+		// panics after a squeeze
+		if h.Done {
+			unsupported("%s: Absorb after Squeeze", e.where)
+		}
+		sv, ok := e.expr(n.Args[0]).(SliceV)
+		if !ok {
+			unsupported("%s: Absorb of a non-slice", e.where)
+		}
+		bad := Or(Eq(sv.Len, IntC(0)), Ne(EMod(sv.Len, IntC(243)), IntC(0)))
+		bad = x.simplifyWithPC(e.st, bad)
+		if !bad.IsFalse() {
+			unsupported("%s: Absorb of a slice whose length is not provably a positive multiple of 243", e.where)
+		}
+		h.Chunks = append(append([]hchunk{}, h.Chunks...), x.chunkOf(e, sv))
+		x.writePlace(e, x.placeOf(e, recv), h)
+		return noErr, true
+	case "Squeeze", "MustSqueeze":
+		cnt, ok := x.simplifyWithPC(e.st, e.toIntTerm(e.expr(n.Args[0]))).Int64()
+		if !ok || cnt != 243 || h.Done {
+			unsupported("%s: only a single Squeeze(243) is modelled", e.where)
+		}
+		d := x.digest(e, h)
+		h.Done = true
+		x.writePlace(e, x.placeOf(e, recv), h)
+		if name == "MustSqueeze" {
+			return d, true
+		}
+		return TupleV{d, noErr}, true
 	case "Write":
 		v := e.expr(n.Args[0])
 		ch := x.chunkOf(e, v)
@@ -204,6 +255,9 @@ func (x *Exec) hashcatForm(e *Env, n *ast.CallExpr) Value {
 	var h HashV
 	if bl, ok := n.Args[0].(*ast.BasicLit); ok {
 		h = x.newHash(strings.Trim(bl.Value, "\""), nil)
+		if h.Name == "curlp81" {
+			h.Elem = types.Typ[types.Int8]
+		}
 	} else {
 		fv, ok := e.expr(n.Args[0]).(Scalar)
 		if !ok {
